@@ -222,9 +222,6 @@ func addSubscription(m *match.Match, s *pb.SubscriptionList, c *matchClient) (re
 	prefix := path.ToStrings(s.Prefix, true)
 	for _, sub := range s.Subscription {
 		p := sub.GetPath()
-		if p == nil {
-			continue
-		}
 		query := prefix
 		if origin := p.GetOrigin(); s.Prefix.GetOrigin() == "" && origin != "" {
 			query = append(prefix, origin)
